@@ -227,3 +227,20 @@ Theorem spec_oracle_bp_decides : forall (RG : ReGroups) re_match parse_float jso
   <-> Permutation res (log_rows2 re_match parse_float json_get hash_labels q c d) /\ ts_sorted (c_asc c) res.
 Proof. exact @sem2_bp_b_iff. Qed.
 Print Assumptions spec_oracle_bp_decides.
+
+(* THE PROPERTY IN ONE STATEMENT, over both fragments: matchers = != =~ !~; a pipeline of line filters, label filters (string and
+   numeric, and/or/parentheses), json stages with parameters, regexp stages and drop stages in any order (possibly none of the
+   relabelling ones); every context (window, limit, direction, type, cluster or not); every database the writer's invariants
+   allow; every oracle and tie-breaking - under the two guards (defect #16: a matcher that accepts "" meeting a series lacking
+   its label; at most 63 matchers), the SQL the planners generate returns exactly the lines whose stream satisfies every
+   matcher, whose text passes every line filter and whose CURRENT labels pass every label filter, inside [from, to) and of the
+   queried type, each with its current labels; with a limit the newest (oldest, forward) ones. On a pipeline of filters the
+   reference of logql_log_partial (log_rows) and this one (log_rows2) are the same list (log_rows2_filters). *)
+Theorem logql_log_correct :
+  forall (RG : ReGroups) re_match parse_float json_get hash_labels (tie : forall A : Type, list A -> list A),
+    (forall A (l : list A), Permutation (tie A l) l) ->
+    forall q c d, in_fragment q || in_fragment2 q = true -> oracle_ok re_match parse_float q -> ctx_ok c = true -> db_ok c d ->
+    width_guard q = true -> absent_guard re_match q d ->
+    log_correct2 re_match parse_float json_get hash_labels tie q c d.
+Proof. exact logql_log_correct_proof. Qed.
+Print Assumptions logql_log_correct.
